@@ -20,12 +20,67 @@ pub enum Resp {
     Version(u8),
 }
 
-/// precomputed filler patterns (salts 21..=26), sliced instead of regenerated per case
+thread_local! {
+    /// content class of the variable parts for the case being evaluated (see `CONTENTS`)
+    static CONTENT: std::cell::Cell<u8> = const { std::cell::Cell::new(0) };
+}
+
+/// content classes: 0 pattern; 1 all zero; 2 all 0xFF; 3 leading zero byte(s) then pattern;
+/// 4 ASN.1-looking data whose header announces less than the part holds; 5 ASN.1-looking data whose
+/// header announces exactly the rest; 6 trailing zero bytes
+pub const CONTENTS: u8 = 7;
+
+/// precomputed filler patterns (salts 21..=26) per content class, sliced instead of regenerated
 fn fill(len: usize, salt: usize) -> &'static [u8] {
     use std::sync::OnceLock;
-    static F: OnceLock<Vec<Vec<u8>>> = OnceLock::new();
-    let f = F.get_or_init(|| (21..=26).map(|s| fill_bytes(1100, s)).collect());
-    &f[salt - 21][..len]
+    static F: OnceLock<Vec<Vec<Vec<u8>>>> = OnceLock::new();
+    let f = F.get_or_init(|| {
+        (0..CONTENTS)
+            .map(|c| {
+                (21..=26)
+                    .map(|s| {
+                        let mut v = fill_bytes(1100, s);
+                        match c {
+                            1 => v.iter_mut().for_each(|b| *b = 0),
+                            2 => v.iter_mut().for_each(|b| *b = 0xff),
+                            3 => {
+                                v[0] = 0;
+                                v[1] = if s % 2 == 0 { 0 } else { v[1] | 1 };
+                            }
+                            4 => v[..4].copy_from_slice(&[0x30, 0x82, 0x00, 0x05]),
+                            _ => {}
+                        }
+                        v
+                    })
+                    .collect()
+            })
+            .collect()
+    });
+    let c = CONTENT.with(|c| c.get()) as usize;
+    if c == 5 && len >= 4 {
+        // header announcing exactly len - 4 bytes: built per length in a leaked cache
+        static G: OnceLock<std::sync::Mutex<std::collections::HashMap<(usize, usize), &'static [u8]>>> = OnceLock::new();
+        let g = G.get_or_init(Default::default);
+        let mut g = g.lock().unwrap();
+        return g.entry((len, salt)).or_insert_with(|| {
+            let mut v = fill_bytes(len, salt);
+            v[..4].copy_from_slice(&[0x30, 0x82, ((len - 4) >> 8) as u8, (len - 4) as u8]);
+            Box::leak(v.into_boxed_slice())
+        });
+    }
+    if c == 6 && len >= 2 {
+        static H: OnceLock<std::sync::Mutex<std::collections::HashMap<(usize, usize), &'static [u8]>>> = OnceLock::new();
+        let h = H.get_or_init(Default::default);
+        let mut h = h.lock().unwrap();
+        return h.entry((len, salt)).or_insert_with(|| {
+            let mut v = fill_bytes(len, salt);
+            let n = v.len();
+            v[n - 1] = 0;
+            v[n - 2] = 0;
+            Box::leak(v.into_boxed_slice())
+        });
+    }
+    &f[c.min(4)][salt - 21][..len]
 }
 
 fn b<const N: usize>(len: usize, salt: usize) -> Bytes<N> {
@@ -104,6 +159,13 @@ fn ser_cap(cap: usize, r: &ctap1::Response, prefix: &[u8]) -> Result<(bool, Vec<
 }
 
 pub const CAPS: [usize; 12] = [0, 1, 5, 6, 7, 66, 67, 68, 128, 256, 1024, 2048];
+
+pub fn check_content(r: &Resp, cap: usize, prefix_len: usize, content: u8) -> Verdict {
+    CONTENT.with(|c| c.set(content));
+    let v = check(r, cap, prefix_len);
+    CONTENT.with(|c| c.set(0));
+    v
+}
 
 pub fn check(r: &Resp, cap: usize, prefix_len: usize) -> Verdict {
     let prefix: Vec<u8> = (0..prefix_len).map(|i| 0xee ^ (i as u8)).collect();
@@ -303,6 +365,36 @@ pub fn run(ctx: &'static Ctx) {
             }
         });
     }
+    // content classes of the variable parts (coordinates, key handle, certificate, signature)
+    {
+        let mut cases: Vec<(Resp, u8)> = Vec::new();
+        for content in 1..CONTENTS {
+            for kh in [0usize, 1, 4, 5, 32, 64, 255] {
+                for cert in [0usize, 3, 4, 5, 9, 10, 300, 1024] {
+                    for sig in [0usize, 4, 8, 70, 72] {
+                        cases.push((Resp::Register(5, kh, cert, sig), content));
+                    }
+                }
+            }
+            for sig in 0..=72usize {
+                cases.push((Resp::Authenticate(1, 0x01020304, sig), content));
+            }
+        }
+        let cr = &cases;
+        sweep(ctx, "content classes of the variable parts", cases.len() as u64, "all-zero, all-FF, leading-zero coordinates and parts, ASN.1-looking parts whose header announces less than / exactly what the part holds, trailing zeros x key-handle / certificate / signature lengths", move |idx, l| {
+            let (r, content) = &cr[idx as usize];
+            l.nontrivial += 1;
+            let v = check_content(r, 2048, 0, *content);
+            l.bump("fits");
+            if !v.ok {
+                l.fail(ctx, idx, v, || {
+                    let mut j = rjson(r, 2048, 0);
+                    j["content"] = json!(content);
+                    j
+                });
+            }
+        });
+    }
     // remaining space: every value from 0 to length + 2, in every instantiated capacity
     let probes = vec![Resp::Version(0), Resp::Authenticate(1, 0x01020304, 0), Resp::Authenticate(1, 5, 72), Resp::Register(5, 0, 0, 0), Resp::Register(5, 1, 1, 1), Resp::Register(5, 64, 300, 71), Resp::Register(5, 255, 1024, 72)];
     let mut cases: Vec<(usize, usize, usize)> = Vec::new(); // (probe, cap, prefix)
@@ -354,7 +446,7 @@ pub fn replay(case: &Value) -> Verdict {
                 1 => Resp::Authenticate(f[1] as u8, f[2] as u32, f[3] as usize),
                 _ => Resp::Version(f[1] as u8),
             };
-            check(&r, case["capacity"].as_u64().unwrap() as usize, case["prefix"].as_u64().unwrap() as usize)
+            check_content(&r, case["capacity"].as_u64().unwrap() as usize, case["prefix"].as_u64().unwrap() as usize, case["content"].as_u64().unwrap_or(0) as u8)
         }
     }
 }
